@@ -45,6 +45,10 @@ class FakeB2:
         return httpx.MockTransport(self.handle)
 
     async def handle(self, request):
+        act = self.plan(request) if getattr(self, 'plan', None) else None
+        if act is not None:
+            from .fakes3 import apply_fault
+            return await apply_fault(self, request, act)
         body = await request.aread()
         self.calls += 1
         self.op_calls = getattr(self, 'op_calls', 0) + 1
